@@ -758,3 +758,5 @@ M('sweep-cli-rewrites-not-written-back', ['C12'], CLI, "        config.sources =
 M('sweep-cli-rewrite-loop-skips-filters-with-sources', ['C12'], CLI, "        if not (sources := split_commas_maybe(config.sources)):\n            continue\n\n        for i, source in enumerate(sources):", "        if (sources := split_commas_maybe(config.sources)):\n            continue\n\n        for i, source in enumerate(sources):", ['C12.R14'])
 M('sweep-bridge-raw-data-when-switched-off', ['C16'], BR, "            if self._export_raw_data and hasattr(self._lineage, '_last_frame_data'):", "            if not (self._export_raw_data and hasattr(self._lineage, '_last_frame_data')):", ['C16.R10'])
 M('sweep-bridge-raw-data-unconditional', ['C16'], BR, "            if self._export_raw_data and hasattr(self._lineage, '_last_frame_data'):", "            if hasattr(self._lineage, '_last_frame_data'):", ['C16.R10'])
+M('sweep-rolllog-refresh-without-rescan', ['C13'], RL, "        self.scan_logfiles()\n\n        close    = True\n", "        close    = True\n", ['C13.R5'])
+M('sweep-rolllog-vanished-file-listed-anyway', ['C13', 'C14'], RL, "                except FileNotFoundError:  # pruned by the writer between the listing and this look at it\n                    continue\n", "                except FileNotFoundError:  # pruned by the writer between the listing and this look at it\n                    pass\n", ['C13.R8', 'C14.R7'])
